@@ -36,12 +36,14 @@ def _res(code: t.Any = L.LDAPResultCode.SUCCESS) -> t.Any:
 
 RESP_KINDS = ["BindResp-ok", "BindResp-sasl", "BindResp-bad", "Entry", "Ref", "Done", "ExtResp", "Notice",
               # decorated variants: what a peer may attach must not change how the message is correlated
-              "Done-paged", "ExtResp-named", "Entry-ctl"]
+              "Done-paged", "ExtResp-named", "Entry-ctl",
+              # result codes a client might be tempted to act on: how a response is correlated does not depend on them
+              "BindResp-proto", "Done-referral"]
 
 
 def base_kind(name: str) -> str:
     return {"Done-paged": "Done", "ExtResp-named": "ExtResp", "Entry-ctl": "Entry", "ExtResp-big": "ExtResp", "SearchReq-lim1": "SearchReq", "ExtReq-big": "ExtReq",
-            "ExtResp-hugeid": "ExtResp", "Done-hugeid": "Done"}.get(name, name)  # fmt: skip
+            "ExtResp-hugeid": "ExtResp", "Done-hugeid": "Done", "BindResp-proto": "BindResp-bad", "Done-referral": "Done", "BindReq-v2": "BindReq"}.get(name, name)  # fmt: skip
 REQ_KINDS = ["BindReq", "SearchReq", "ExtReq", "Unbind", "SearchReq-lim1"]
 
 
@@ -74,6 +76,12 @@ def make_msg(kind: str, i: int) -> t.Any:
         return _raw(i, ber.Node(ber.APPLICATION, False, 10, b"dc=x"))
     if kind == "IntermResp":
         return _raw(i, ber.Node(ber.APPLICATION, True, 25, None, []))
+    if kind == "BindResp-proto":
+        return L.BindResponse(i, [], L.LDAPResult(C.PROTOCOL_ERROR, "", "version not supported", None), None)
+    if kind == "Done-referral":
+        return L.SearchResultDone(i, [], L.LDAPResult(C.REFERRAL, "dc=x", "", ["ldap://other/dc=x"]))
+    if kind == "BindReq-v2":
+        return L.BindRequest(i, [], 2, "", L.SimpleCredential(""))
     if kind == "BindResp-ok":
         return L.BindResponse(i, [], _res(), None)
     if kind == "BindResp-sasl":
@@ -225,6 +233,7 @@ def events(role: str, kmax: int) -> t.List[Event]:
         for i in (0, 1):
             ev += [("recv", n, aid(i)) for n in RESP_KINDS]
         ev += [("recv", "DelReq", aid(i)) for i in (0, 1)] + [("recv", "IntermResp", aid(1))]
+        ev += [("recv", "BindReq-v2", aid(i)) for i in range(0, kmax + 1)]
         for i in (1, 2):
             ev += [("recv2", n, aid(i)) for n in REQ_KINDS]
         ev += [("recvpeer", n, aid(1)) for n in REQ_KINDS + ["Notice"]]
@@ -431,6 +440,9 @@ def monitors(role: str, g: Ghost, ev: Event, rec: Rec, viol: t.List[t.Tuple[str,
     # C10: a refused send call leaves the outgoing stream untouched
     if is_call and not accepted and out:
         flag("C10", f"refused-call-left-bytes:{role}:{name}", f"{role} {name}({i}) was refused ({type(exc).__name__}) but {len(out)} bytes were queued: {out.hex()[:60]}")
+    # a delivery never puts anything into the outgoing stream (what a session wants sent on an error travels on the exception)
+    if is_recv and out:
+        flag("C10", f"receive-queued-bytes:{role}:{base_kind(name)}", f"{role}.receive({kind} {name} id {i}) left {len(out)} bytes in the outgoing stream: {out.hex()[:60]}")
     # (a) CLOSED is absorbing
     if pre == S.CLOSED:
         if post != S.CLOSED:
@@ -450,7 +462,7 @@ def monitors(role: str, g: Ghost, ev: Event, rec: Rec, viol: t.List[t.Tuple[str,
     is_bindreq = accepted and ((role == "client" and kind == "call" and name.startswith("bind_")) or (role == "server" and single and base_kind(name) == "BindReq"))
     is_final_bindresp = accepted and (
         (role == "server" and kind == "call" and name in ("bind_response-ok", "bind_response-bad"))
-        or (role == "client" and single and name in ("BindResp-ok", "BindResp-bad"))
+        or (role == "client" and single and base_kind(name) in ("BindResp-ok", "BindResp-bad"))
     )
     if is_call or single or kind == "garbage":
         # (b) BINDING is entered exactly by an accepted bind request
